@@ -101,6 +101,9 @@ pub enum LinkKind {
     ToIncompleteDir,
     /// symbolic link to itself
     Loop,
+    /// not a link at all: a FIFO nobody writes to (probing below it gives ENOTDIR,
+    /// opening it would block)
+    Fifo,
 }
 
 /// A symbolic link lying at the top level of the database.
@@ -314,6 +317,7 @@ impl Property for C20 {
                         LinkKind::ToCompleteDir,
                         LinkKind::ToIncompleteDir,
                         LinkKind::Loop,
+                        LinkKind::Fifo,
                     ]),
                 });
             }
@@ -427,7 +431,17 @@ impl Property for C20 {
 
         // ---- build the tree
         let sd = SimDisk::new();
-        let dbpath = sd.path("db");
+        // (one run in four keeps its database below a directory whose name is not UTF-8:
+        // the names of the packages are what counts, not the place of the database)
+        let odd_root = (sc.probes.len() + sc.pkgs.len()) % 4 == 1;
+        let dbpath = if odd_root {
+            ctx.fault("database_below_non_utf8_directory");
+            let up = sd.root().join(OsString::from_vec(b"pkg\xff\xfedb".to_vec()));
+            std::fs::create_dir_all(&up).unwrap_or_else(|e| panic!("SIM-HARNESS: mkdir: {}", e));
+            up.join("db")
+        } else {
+            sd.path("db")
+        };
         match sc.db {
             DbKind::Missing => {
                 ctx.fault("missing_database_path");
@@ -439,7 +453,7 @@ impl Property for C20 {
             }
             DbKind::PlainFile => {
                 ctx.fault("database_path_is_plain_file");
-                sd.write("db", b"not a database");
+                std::fs::write(&dbpath, b"not a database").unwrap_or_else(|e| panic!("SIM-HARNESS: write: {}", e));
                 ctx.step("open", 1, 0);
                 if let Ok(db) = PkgDB::open(&dbpath) {
                     // whatever this is, it must not panic or run away
@@ -455,7 +469,7 @@ impl Property for C20 {
             }
             DbKind::Dir => {}
         }
-        sd.mkdir("db");
+        std::fs::create_dir_all(&dbpath).unwrap_or_else(|e| panic!("SIM-HARNESS: mkdir: {}", e));
         // model: which files exist in which package directory
         let mut exists: Vec<[bool; NFILES]> = Vec::new();
         for p in &sc.pkgs {
@@ -539,6 +553,16 @@ impl Property for C20 {
                     sd.path("outside-incomplete")
                 }
                 LinkKind::Loop => at.clone(),
+                LinkKind::Fifo => {
+                    use std::os::unix::ffi::OsStrExt;
+                    let c = std::ffi::CString::new(at.as_os_str().as_bytes()).unwrap();
+                    let rc = unsafe { libc::mkfifo(c.as_ptr(), 0o644) };
+                    if rc != 0 {
+                        panic!("SIM-HARNESS: mkfifo {:?} failed", at);
+                    }
+                    ctx.fault("fifo_at_top");
+                    continue;
+                }
             };
             std::os::unix::fs::symlink(&target, &at).unwrap_or_else(|e| panic!("SIM-HARNESS: symlink {:?}: {}", at, e));
             ctx.fault("symlink_at_top");
@@ -979,14 +1003,32 @@ impl Property for C20 {
                     continue;
                 }
                 let path = dir.join(FILE_NAMES[f]);
+                // (a rewrite in place that keeps the length and puts the old modification time
+                // back - cp -p, an unpacked archive, the same clock tick - is still a rewrite)
+                let same_len_same_mtime = exists[pi][f] && (pi + f) % 4 == 2 && sc.pkgs[pi].contents[f].is_ascii() && !sc.pkgs[pi].contents[f].is_empty();
+                let old_mtime = std::fs::metadata(&path).and_then(|m| m.modified()).ok();
                 let late: Option<String> = if !exists[pi][f] {
                     Some(format!("late {} {}\n", pi, FILE_NAMES[f]))
+                } else if same_len_same_mtime {
+                    let mut b = sc.pkgs[pi].contents[f].clone().into_bytes();
+                    let k = b.len() / 2;
+                    b[k] = if b[k] == b'Z' { b'Y' } else { b'Z' };
+                    Some(String::from_utf8(b).unwrap())
                 } else if (pi + f) % 2 == 0 {
                     Some(format!("rewritten {}\n{}", f, sc.pkgs[pi].contents[f].chars().rev().take(40).collect::<String>()))
                 } else {
                     None
                 };
                 match &late {
+                    Some(t) if same_len_same_mtime => {
+                        use std::io::Write as _;
+                        let mut fh = std::fs::OpenOptions::new().write(true).open(&path).unwrap_or_else(|e| panic!("SIM-HARNESS: open: {}", e));
+                        fh.write_all(t.as_bytes()).unwrap_or_else(|e| panic!("SIM-HARNESS: write: {}", e));
+                        if let Some(m) = old_mtime {
+                            let _ = fh.set_modified(m);
+                        }
+                        ctx.fault("rewritten_in_place_same_length_same_mtime");
+                    }
                     Some(t) => std::fs::write(&path, t.as_bytes()).unwrap_or_else(|e| panic!("SIM-HARNESS: write: {}", e)),
                     None => {
                         let _ = std::fs::remove_file(&path);
